@@ -1,7 +1,8 @@
 ----------------------------- MODULE MCNamespace -----------------------------
 EXTENDS Namespace, Json
+CONSTANT Big
 VARIABLE c
-Layouts == {
+LayoutsQ == {
   <<<<"a">>, <<"b">>>>,
   <<<<"a", "b">>, <<"a", "c">>, <<"ab", "c">>>>,                        \* duplicate prefixes a / ab
   <<<<"a">>, <<"a b">>, <<"d", "a b", "x y">>>>,                         \* names needing escaping
@@ -11,17 +12,28 @@ Layouts == {
   <<<<"x">>, <<"x">>>>,                                                   \* duplicate paths
   <<<<"p", "q">>, <<".pad", "0">>, <<"p", "r">>>>,                        \* (the second file is a padding file)
   <<<<"a">>, <<"s", "_pad0">>, <<"s", "b">>, <<"s", "t", "c">>>>,        \* a padding file first in a directory of real files
+  <<<<"..", "a">>, <<".", "a">>, <<"a">>>>,                               \* dot components inside the torrent
   <<<<"a/b">>, <<"a", "b">>>>,                                            \* a component containing a slash
   <<<<"x y">>>>, <<<<"%41">>>>, <<<<"a?b#c">>>>                           \* also run as single-file torrents of that name
 }
+\* further layouts for the thorough tier
+LayoutsT == LayoutsQ \cup {
+  <<<<"a">>, <<"a.">>, <<"a ", "a">>, <<"A">>>>,                          \* near-identical names
+  <<<<"d", "e", "f", "g">>, <<"d", "e", "f">>, <<"d", "e">>, <<"d">>>>,   \* every prefix of a file is itself a file
+  <<<<"x", "1">>, <<"x", "2">>, <<"y", "1">>, <<"y", "2">>, <<"1">>>>,   \* the same leaf names in several directories
+  <<<<"%2F">>, <<"%2f", "a">>, <<"+">>, <<" ">>>>,                        \* encoded slash, plus, blank
+  <<<<"_pad0">>, <<"s", "_pad1">>, <<"s", "_pad2">>, <<"t">>>>,          \* a directory holding only padding files
+  <<<<"x y">>, <<"x y">>, <<"x y", "z">>>>                                \* duplicates and a clash together
+}
+Layouts == IF Big THEN LayoutsT ELSE LayoutsQ
 Comps(files) == UNION {{files[k][i] : i \in 1..Len(files[k])} : k \in 1..Len(files)} \cup {"zz", "", ".."}
 Paths(files) == {<<>>} \cup {<<x>> : x \in Comps(files)} \cup {<<x, y>> : x \in Comps(files), y \in Comps(files)}
-                \cup {<<x, y, z>> : x \in Comps(files), y \in Comps(files), z \in {"g", "x y", "zz", "", "c"} \cap Comps(files)}
+                \cup {<<x, y, z>> : x \in Comps(files), y \in Comps(files), z \in (IF Big THEN Comps(files) ELSE {"g", "x y", "zz", "", "c"} \cap Comps(files))}
 Init == c \in {[files |-> fs, p |-> p, single |-> sg] : fs \in Layouts, p \in UNION {Paths(f) : f \in Layouts}, sg \in BOOLEAN}
         /\ c.p \in Paths(c.files) /\ (c.single => Len(c.files) = 1 /\ Len(c.files[1]) = 1)
 Next == UNCHANGED c
 Spec == Init /\ [][Next]_c
 Good == Sane(c.files)
-Emit == PrintT("CASE " \o ToJson([files |-> c.files, p |-> c.p, single |-> c.single, admissible |-> Admissible(c.files), file |-> Resolve(c.files, c.p), isdir |-> IsDir(c.files, c.p),
+Emit == PrintT("CASE " \o ToJson([files |-> c.files, p |-> c.p, single |-> c.single, admissible |-> Admissible(c.files), shadowed |-> Shadowed(c.files, c.p), file |-> Resolve(c.files, c.p), isdir |-> IsDir(c.files, c.p),
                                   entries |-> Entries(c.files, c.p), listed |-> Listed(c.files, c.p)]))
 =============================================================================
